@@ -347,6 +347,85 @@ def run(chk):
                            '%s:%d' % (fn.module.relpath, h.lineno), key='C15-N|%s|%s' % (fn.qualname, var))
     chk.count('failed-lookup handlers examined', nn)
 
+    # ---- L: the validator looks a datatype structure up only where the element has a datatype
+    chk.rule('C15-L', 'in the validator a structure lookup by `X.datatype` is made only under a test that established '
+                      '`X.datatype is not None` (the tolerant parser resets the datatype of a base-datatype field with several '
+                      'components to None; load_reference(None, ...) raises ChildNotFound out of validate(return_errors=True))')
+
+    def _helper_body(fn, call):
+        """the returned expression of a one-return local/module helper called by `call`, with the arguments substituted"""
+        if not isinstance(call.func, ast.Name):
+            return None
+        cands = [x for x in ast.walk(fn.module.tree) if isinstance(x, ast.FunctionDef) and x.name == call.func.id]
+        if len(cands) != 1:
+            return None
+        h = cands[0]
+        rets = [x for x in ast.walk(h) if isinstance(x, ast.Return)]
+        body = [b for b in h.body if not (isinstance(b, ast.Expr) and isinstance(b.value, ast.Constant))]
+        if len(rets) != 1 or len(body) != 1 or body[0] is not rets[0] or rets[0].value is None:
+            return None
+        params = [a.arg for a in h.args.args]
+        if len(call.args) != len(params) or call.keywords:
+            return None
+        sub = {p_: norm(a) for p_, a in zip(params, call.args)}
+        return rets[0].value, sub
+
+    def _implies_not_none(test, target, truth, sub=None, depth=0):
+        """`test` evaluating to `truth` implies `target is not None` (target: normalised text of X.datatype)"""
+        sub = sub or {}
+
+        def txt(e):
+            t = norm(e)
+            if isinstance(e, ast.Attribute) and isinstance(e.value, ast.Name) and e.value.id in sub:
+                t = '%s.%s' % (sub[e.value.id], e.attr)
+            elif isinstance(e, ast.Name) and e.id in sub:
+                t = sub[e.id]
+            return t
+        if isinstance(test, ast.UnaryOp) and isinstance(test.op, ast.Not):
+            return _implies_not_none(test.operand, target, not truth, sub, depth)
+        if isinstance(test, ast.BoolOp):
+            conj = isinstance(test.op, ast.And)
+            if conj == truth:       # (a and b) true / (a or b) false: every operand has that value
+                return any(_implies_not_none(v, target, truth, sub, depth) for v in test.values)
+            return all(_implies_not_none(v, target, truth, sub, depth) for v in test.values)
+        if isinstance(test, ast.Compare) and len(test.ops) == 1 and isinstance(test.comparators[0], ast.Constant) and \
+                test.comparators[0].value is None and txt(test.left) == target:
+            return isinstance(test.ops[0], ast.IsNot) if truth else isinstance(test.ops[0], ast.Is)
+        if isinstance(test, ast.Call) and depth < 2:
+            hb = _helper_body(_cur[0], test)
+            if hb:
+                e, sub2 = hb
+                sub2 = {k_: (sub.get(v_, v_)) for k_, v_ in sub2.items()}
+                return _implies_not_none(e, target, truth, sub2, depth + 1)
+        return False
+
+    _cur = [None]
+    nl = 0
+    for fn in te.funcs:
+        if fn.module.name != 'validation':
+            continue
+        _cur[0] = fn
+        for n in own_nodes(fn.node):
+            if not (isinstance(n, ast.Call) and norm(n.func).endswith('load_reference') and n.args and
+                    isinstance(n.args[0], ast.Attribute) and n.args[0].attr == 'datatype'):
+                continue
+            nl += 1
+            target = norm(n.args[0])
+            ok = False
+            child, par = n, getattr(n, '_parent', None)
+            while par is not None and not isinstance(par, (ast.FunctionDef, ast.AsyncFunctionDef)):
+                if isinstance(par, ast.If):
+                    if any(child is b for b in par.body) and _implies_not_none(par.test, target, True):
+                        ok = True
+                    if any(child is b for b in par.orelse) and _implies_not_none(par.test, target, False):
+                        ok = True
+                child, par = par, getattr(par, '_parent', None)
+            chk.ob('C15-L', '%s: `%s`' % (fn.qualname, norm(n)[:70]), ok,
+                   '' if ok else 'no enclosing test establishes `%s is not None`: an element whose datatype the tolerant parser '
+                   'reset to None makes validate() raise ChildNotFound instead of returning its report' % target,
+                   '%s:%d' % (fn.module.relpath, n.lineno), key='C15-L|%s|%s' % (fn.qualname, target))
+    chk.floor('datatype structure lookups in the validator (C15-L)', nl, 2)
+
     # ---- A
     fs = ix.func('core.ElementFinder._parse_structure')
     keys = set(te.returned_dict_items(fs))
